@@ -95,8 +95,8 @@ def execute(c):
         if lib.changed(t, snap) or not (np.array_equal(u.pid(), t.pid()) and np.array_equal(u.type(), t.type()) and np.array_equal(u.r(), t.r())
                                         and np.array_equal(u.id(), t.id())):
             kept = 0
-        res.append(q3(u))
-    return {"res": res, "kept": kept}
+        res.append(u)
+    return {"res": [q3(u) for u in res], "kept": kept}        # (results are read after all calls: each must outlive the later ones)
 
 
 def keyfn(c, o, why):
